@@ -133,43 +133,36 @@ func (s *selector) table(c *Ctx) map[config]string {
 	return out
 }
 
-// descriptorCert: the certificate bytes value encoded into the KeyDescriptor with the given use ("" if no such descriptor).
+// descriptorCert: the certificate bytes value published in the KeyDescriptor with the given use, read from the FINAL
+// state of the returned EntityDescriptor (so that descriptors sharing storage — a template struct appended twice whose
+// certificate slice is one backing array — are seen as what the caller really gets). present=false: no such descriptor.
 func descriptorCert(t *Terminal, use string) (Val, bool) {
-	for _, e := range t.stores() {
-		fa, ok := e.Addr.(*FieldAddrV)
-		if !ok || fa.Name != "Use" {
+	if len(t.Vals) == 0 {
+		return nil, false
+	}
+	rd := newReader(t)
+	sps := rd.field(t.Vals[0], "SPSSODescriptor")
+	if sps == nil {
+		return nil, false
+	}
+	kds, ok := rd.elems(rd.field(sps, "KeyDescriptors"))
+	if !ok {
+		return nil, false
+	}
+	for _, kd := range kds {
+		u := rd.field(kd, "Use")
+		if s, isC := constString(u); !isC || s != use {
 			continue
 		}
-		if s, ok := constString(e.Val); !ok || s != use {
-			continue
+		certs, ok := rd.elems(rd.field(rd.field(rd.field(kd, "KeyInfo"), "X509Data"), "X509Certificates"))
+		if !ok || len(certs) == 0 {
+			return nil, true
 		}
-		owner := fa.X.Key()
-		// find X509Certificates store under the same owner
-		for _, s := range t.stores() {
-			sa, ok := s.Addr.(*FieldAddrV)
-			if !ok || sa.Name != "X509Certificates" || !strings.HasPrefix(sa.Key(), "&"+lvalKey(fa.X)+".") {
-				continue
-			}
-			_ = owner
-			sl, ok := s.Val.(*SliceV)
-			if !ok {
-				continue
-			}
-			// element 0 .Data
-			for _, d := range t.stores() {
-				da, ok := d.Addr.(*FieldAddrV)
-				if !ok || da.Name != "Data" {
-					continue
-				}
-				if ia, ok := da.X.(*IndexAddrV); ok && ia.X.Key() == sl.X.Key() {
-					if cv, ok := d.Val.(*CallV); ok && strings.HasSuffix(cv.Callee, "EncodeToString") {
-						return cv.Args[1], true
-					}
-					return d.Val, true
-				}
-			}
+		d := rd.field(certs[0], "Data")
+		if cv, ok := d.(*CallV); ok && strings.HasSuffix(cv.Callee, "EncodeToString") {
+			return cv.Args[1], true
 		}
-		return nil, true
+		return d, true
 	}
 	return nil, false
 }
